@@ -16,7 +16,7 @@ def main(tier, replay=None):
                           link_target="qmail-smtpd", exclude=EXCL, extra_objs=extra)
     depth = 4 if tier == "quick" else 5
     jobs = []
-    for cfg in range(72 + 18):
+    for cfg in range(72 + 18 + 18):
         d = os.path.join(rd, "cfg%d" % cfg); os.makedirs(d)
         jobs.append(("%s %s %d %d" % (exe, d, cfg, depth), "configuration %d" % cfg))
     res.run_parallel(jobs)
@@ -25,7 +25,7 @@ def main(tier, replay=None):
     plain = scratch_build(rd, "plain")
     vk_run(res, "c07", plain, rd, "0,0,0,0", 0, 600, "qmail-newmrh-then-qmail-smtpd", opts=["family=morercpt"])
     res.rule = ("for every configuration in {rcpthosts absent/present} x {morercpthosts.cdb absent/present (written with the cdbmss writer qmail-newmrh "
-                "uses)} x {badmailfrom absent/address/@domain} x {localiphost absent/present} x RELAYCLIENT {unset, empty, @gw}, plus 18 configurations whose morercpthosts.cdb is unreadable: breadth-first "
+                "uses)} x {badmailfrom absent/address/@domain} x {localiphost absent/present} x RELAYCLIENT {unset, empty, @gw}, plus 18 configurations whose morercpthosts.cdb is unreadable and 18 whose rcpthosts exists without any entry: breadth-first "
                 "search over command sequences of the real qmail-smtpd (one command per transition through the real commands() loop, DATA with "
                 "a small and an over-size body), de-duplicated on the server's own transaction state, to depth %d; 38 command lines (HELO/EHLO/"
                 "RSET/NOOP/VRFY/HELP/unknown/QUIT/DATA, 6 MAIL and 20 RCPT forms: exact, dot-wildcard, mixed case, cdb-only, foreign, no @, "
